@@ -176,7 +176,7 @@ def _enumerate_subject(acc, ent, rec, twin, combos, opts, prefix, depth):
                     raise RuntimeError(f"tight representative of {c} selects {code}: {ext}")
         full = depth == 1 and lat.n_boxes <= opts["full_cap"]
         # ---- masks
-        if depth == 1:
+        if depth == 1 and rec["kind"] != "group":  # a group's own mask is not judged, so it is not executed either
             if full:
                 boxes = lat.boxes()
             else:
@@ -441,6 +441,8 @@ def run(ctx):
         executions_per_kind={k: v["executions"] for k, v in per_kind.items()},
         cpu_seconds_per_kind={k: round(v["cpu"], 1) for k, v in per_kind.items()},
         cell_object_vertex_subsets_reached=subsets,
+        curve_pattern_x_vertex_subset_pairs_reached=f"{len({o for o in ctx.outcomes if len(o) == 4 and o[1] == 'vertex-subset' and o[0] == 'Curve'})} of {6 * 15}",
+        surface_pattern_x_vertex_subset_pairs_reached=f"{len({o for o in ctx.outcomes if len(o) == 4 and o[1] == 'vertex-subset' and o[0] == 'Surface'})} of {4 * 31}",
         alphabet=["mask_by_extent(ext, inverse)", "copy_from_extent(ext, inverse)", "data.mask_by_extent", "data.copy_from_extent",
                   "copy_from_extent on the first-level copy"],
         bound=(
